@@ -400,8 +400,57 @@ func (c *Ctx) c17LiveReload() {
 	}
 }
 
+// c17KeptContainers: package-level variables declared without an initialiser keep their current values over a reload -
+// also when that value is a container that is not nil but empty at that moment (a map without keys yet, a map whose
+// last key was deleted, a slice cut to s[:0]), and the container is still the one the host captured before
+func (c *Ctx) c17KeptContainers() {
+	version := func(k int) fstest.MapFS {
+		src := fmt.Sprintf("package main\n\nvar seen map[string]bool\n\nvar counts map[int]int\n\nvar queue []int\n\nvar names []string\n\nvar total int\n\nvar label string\n\nvar ratio float64\n\nvar fresh = []int{}\n\n"+
+			"func setup() {\n\tseen = map[string]bool{}\n\tcounts = make(map[int]int)\n\tcounts[7] = 1\n\tdelete(counts, 7)\n\tqueue = []int{1, 2, 3}\n\tqueue = queue[:0]\n\tnames = []string{\"a\"}\n\ttotal = 5\n\tlabel = \"\"\n\tratio = 0.0\n\tfresh = append(fresh, 1)\n}\n\n"+
+			"func nils() []bool {\n\treturn []bool{seen == nil, counts == nil, queue == nil, names == nil}\n}\n\nfunc mark(k string) int {\n\tseen[k] = true\n\ttotal++\n\treturn len(seen)*100 + total + %d\n}\n\nfunc bump(k int) int {\n\tcounts[k]++\n\treturn counts[k]\n}\n\n"+
+			"func push(v int) int {\n\tqueue = append(queue, v)\n\treturn len(queue)*10 + queue[0] + len(names) + len(fresh)\n}\n\nfunc state() string {\n\treturn \"v%d\" + label\n}\n", k*1000, k)
+		return fstest.MapFS{"main/main.go": &fstest.MapFile{Data: []byte(src)}}
+	}
+	vm := goat.New()
+	step := func(what string, f func() ([]goat.Value, error), want string) {
+		var rets []goat.Value
+		var err error
+		if e := try(func() { rets, err = f() }); e != nil {
+			err = fmt.Errorf("PANIC %v", e)
+		}
+		got := c19Show(rets, err)
+		c.Rep.Oracle["kept-containers"]++
+		if got != want {
+			c.Rep.Violate(Violation{Kind: "oracle", Cut: "kept-containers", Input: what + " (package main: var seen map[string]bool / counts map[int]int / queue []int / names []string without initialisers; setup() leaves seen and counts empty but made, queue cut to [:0]; then version 2 is loaded)", Impl: got, Oracle: want})
+		}
+	}
+	load := func(k int) func() ([]goat.Value, error) {
+		return func() ([]goat.Value, error) { return nil, vm.Load(version(k), "main") }
+	}
+	call := func(name string, n int, args ...goat.Value) func() ([]goat.Value, error) {
+		return func() ([]goat.Value, error) { return vm.Call("main."+name, n, args...) }
+	}
+	step("load version 1", load(1), "ok")
+	step("setup()", call("setup", 0), "ok")
+	step("nils() before the reload", call("nils", 1), "ok [false false false false]")
+	heldSeen, heldCounts := vm.Get("main.seen"), vm.Get("main.counts")
+	step("load version 2", load(2), "ok")
+	step("state()", call("state", 1), "ok v2")
+	step("nils() after the reload", call("nils", 1), "ok [false false false false]")
+	step("mark(\"k\")", call("mark", 1, goat.String("k")), "ok 2106")
+	step("bump(3)", call("bump", 1, goat.Int(3)), "ok 1")
+	step("push(4)", call("push", 1, goat.Int(4)), "ok 15") // (fresh has an initialiser: re-initialised, empty)
+	c.Rep.Oracle["kept-containers"]++
+	if heldSeen.Len() != 1 || heldCounts.Len() != 1 {
+		c.Rep.Violate(Violation{Kind: "oracle", Cut: "kept-containers", Input: "the maps the host read before the reload, after mark and bump ran in version 2", Impl: fmt.Sprint(heldSeen.Len(), " ", heldCounts.Len(), " entries"), Oracle: "1 1 entries (they are the package's maps)"})
+	}
+	step("load version 2 again", load(2), "ok")
+	step("mark(\"j\")", call("mark", 1, goat.String("j")), "ok 2207")
+}
+
 func runC17(c *Ctx) error {
 	c.c17LiveReload()
+	c.c17KeptContainers()
 	c.c17TypeGainsFields()
 	c.Rep.Rule = "reload: one VM per history; 2..5 versions of a package with 1..5 functions and 1..3 methods whose bodies change, stay the same, appear in a later version or are left out of one; 8..37 steps of Load(version k) / Eval with an explicit import (reload of the current version, also of unchanged source) / capture of a function in a variable, a struct field, a slice element, of a bound method and of a bound method inside a struct field / new instance / call of everything captured and of every function and method by name / creation and formatting of fresh instances of every struct type by the current code / Bump, SetMode, instance Inc / read of the package variables (two without initialiser, two with); distinct = distinct history; non-trivial = at least two loads and one capture"
 	n := 500
